@@ -68,6 +68,11 @@ pub enum Pipe {
 impl Pipe {
     /// Open the transport to 127.0.0.1:`port` the way a client of that transport would (4 s bound).
     pub async fn connect(via: Transport, port: u16) -> Result<Pipe, String> {
+        Self::connect_within(via, port, Duration::from_secs(4)).await
+    }
+
+    /// The same with a bound of the caller's choosing (a path that delays the handshake on purpose).
+    pub async fn connect_within(via: Transport, port: u16, bound: Duration) -> Result<Pipe, String> {
         let connect = async {
             let tcp = || async {
                 let s = tokio::net::TcpStream::connect(("127.0.0.1", port)).await.map_err(|e| format!("connect: {e}"))?;
@@ -96,9 +101,9 @@ impl Pipe {
                 }
             })
         };
-        match tokio::time::timeout(Duration::from_secs(4), connect).await {
+        match tokio::time::timeout(bound, connect).await {
             Ok(r) => r,
-            Err(_) => Err("transport handshake: no answer within 4 s".into()),
+            Err(_) => Err(format!("transport handshake: no answer within {} s", bound.as_secs())),
         }
     }
 
@@ -148,4 +153,56 @@ impl Pipe {
             conn.close(1u32.into(), b"abort");
         }
     }
+}
+
+/// A path that is slow at one point: everything the client sends is forwarded to 127.0.0.1:`upstream`, but after the first
+/// `after` bytes the path holds what follows for `hold` (once per connection); the way back is not delayed.
+pub async fn slow_path(upstream: u16, after: usize, hold: Duration) -> Option<(u16, tokio::task::JoinHandle<()>)> {
+    use tokio::io::{AsyncReadExt, AsyncWriteExt};
+    let l = tokio::net::TcpListener::bind("127.0.0.1:0").await.ok()?;
+    let port = l.local_addr().ok()?.port();
+    let t = tokio::spawn(async move {
+        while let Ok((c, _)) = l.accept().await {
+            tokio::spawn(async move {
+                let Ok(s) = tokio::net::TcpStream::connect(("127.0.0.1", upstream)).await else { return };
+                let _ = s.set_nodelay(true);
+                let (mut cr, mut cw) = c.into_split();
+                let (mut sr, mut sw) = s.into_split();
+                let back = tokio::spawn(async move {
+                    let mut b = vec![0u8; 16384];
+                    while let Ok(n) = sr.read(&mut b).await {
+                        if n == 0 || cw.write_all(&b[..n]).await.is_err() {
+                            break;
+                        }
+                    }
+                    let _ = cw.shutdown().await;
+                });
+                let mut b = vec![0u8; 16384];
+                let mut passed = 0usize;
+                let mut held = false;
+                while let Ok(n) = cr.read(&mut b).await {
+                    if n == 0 {
+                        break;
+                    }
+                    let mut chunk = &b[..n];
+                    if !held && passed + chunk.len() > after {
+                        let k = after.saturating_sub(passed);
+                        if sw.write_all(&chunk[..k]).await.is_err() {
+                            break;
+                        }
+                        chunk = &chunk[k..];
+                        held = true;
+                        tokio::time::sleep(hold).await;
+                    }
+                    passed += n;
+                    if sw.write_all(chunk).await.is_err() {
+                        break;
+                    }
+                }
+                let _ = sw.shutdown().await;
+                let _ = back.await;
+            });
+        }
+    });
+    Some((port, t))
 }
